@@ -2,6 +2,7 @@ package main
 
 import (
 	"strings"
+	"time"
 
 	"github.com/avfs/avfs"
 )
@@ -205,6 +206,8 @@ func matchOutcome(a *api, m bool, err error) (string, uint8) {
 
 // single evaluates every one-argument function on s.
 func (w *worker) single(o *osCtx, s string) {
+	w.begin(o, "single", s, "", "")
+
 	r, a := &o.ref, &o.sut
 	x := args3{a: [3]string{s}, n: 1}
 
@@ -282,6 +285,8 @@ func (w *worker) aux(o *osCtx, s string) {
 // absCheck compares Abs for the Linux type: the process and the MemFS have
 // been moved to the same working directory cwd.
 func (w *worker) absCheck(o *osCtx, ac *absCtx, s string) {
+	w.begin(o, "abs", s, "", "")
+
 	x := args3{a: [3]string{s}, n: 1}
 	want, wantErr := ac.ref(s)
 	got, gotErr, p := s1se(ac.sut, s)
@@ -290,6 +295,8 @@ func (w *worker) absCheck(o *osCtx, ac *absCtx, s string) {
 
 // pair evaluates Join(a, b) and Rel(a, b).
 func (w *worker) pair(o *osCtx, s, t string) {
+	w.begin(o, "pair", s, t, "")
+
 	r, a := &o.ref, &o.sut
 	x := args3{a: [3]string{s, t}, n: 2}
 
@@ -299,10 +306,111 @@ func (w *worker) pair(o *osCtx, s, t string) {
 		got := sJoin(a.join, &p, s, t)
 		w.cmpJoin(o, fJoin2, x, r.join(s, t), got, p)
 	}
-	{
-		want, wantErr := r.rel(s, t)
-		got, gotErr, p := s2se(a.rel, s, t)
-		w.cmpStrErr(o, fRel, x, "", want, wantErr, got, gotErr, p)
+
+	// Rel. The toolchain's own Windows Rel does not terminate on some inputs
+	// (go1.23: Rel(`\\h\s`, `\\h\s\`) — the element loop never ends when the
+	// base is a bare UNC volume and the target its root). Where the reference
+	// is undefined there is nothing to compare; such inputs are decided by the
+	// preamble (relDiverges), skipped and counted.
+	if o.win && len(s) >= 2 && isSlash(s[0]) && isSlash(s[1]) {
+		if relDiverges(r, o, s, t) {
+			w.refDiverges++
+			w.noteDiverging(s, t)
+
+			return
+		}
+
+		if relDiverges(a, o, s, t) && w.confirmHang(a, s, t) {
+			w.cnt.add(o.idx, fRel, ocError)
+			w.record(o, fRel, o.classOf(x), "returns", "HANG(never returns: predicted from the preamble of Rel, confirmed by a sacrificial call)",
+				vaString(o, o.volAgreeAll(x)), "",
+				func() example { return example{Args: x.slice(), Want: "returns", Got: "does not return"} }, x.size())
+
+			return
+		}
+	}
+
+	want, wantErr := r.rel(s, t)
+	got, gotErr, p := s2se(a.rel, s, t)
+	w.cmpStrErr(o, fRel, x, "", want, wantErr, got, gotErr, p)
+}
+
+// relDiverges decides, from the preamble of Rel evaluated with the primitives
+// of implementation a, whether its element-comparison loop never terminates:
+// that is the case exactly when, after the volume names are stripped and the
+// base adjusted ("." -> "", bare UNC volume -> separator), base and target are
+// equal word for word although the cleaned paths as a whole were not.
+func relDiverges(a *api, o *osCtx, basepath, targpath string) (div bool) {
+	defer func() {
+		if recover() != nil {
+			div = false
+		}
+	}()
+
+	same := func(x, y string) bool {
+		if o.win {
+			return strings.EqualFold(x, y)
+		}
+
+		return x == y
+	}
+
+	baseVol, targVol := a.volumeName(basepath), a.volumeName(targpath)
+	base, targ := a.clean(basepath), a.clean(targpath)
+
+	if same(targ, base) {
+		return false
+	}
+
+	base, targ = base[len(baseVol):], targ[len(targVol):]
+
+	if base == "." {
+		base = ""
+	} else if base == "" && len(a.volumeName(baseVol)) > 2 {
+		base = string(o.sep)
+	}
+
+	baseSlashed := len(base) > 0 && base[0] == o.sep
+	targSlashed := len(targ) > 0 && targ[0] == o.sep
+
+	if baseSlashed != targSlashed || !same(baseVol, targVol) {
+		return false
+	}
+
+	return same(base, targ)
+}
+
+// confirmHang runs Rel in a goroutine that is given up if it has not returned
+// after 2 s (the call takes microseconds when it returns at all). Only inputs
+// for which relDiverges already predicts divergence get here; at most 3
+// confirmations per worker are attempted (each lost goroutine spins forever),
+// later predicted instances are taken as confirmed by the first ones.
+func (w *worker) confirmHang(a *api, s, t string) bool {
+	if w.hangConfirmed >= 3 {
+		return true
+	}
+
+	done := make(chan struct{})
+
+	go func() {
+		defer func() { _ = recover(); close(done) }()
+
+		_, _ = a.rel(s, t)
+	}()
+
+	select {
+	case <-done:
+		return false
+	case <-time.After(2 * time.Second):
+		w.hangConfirmed++
+
+		return true
+	}
+}
+
+func (w *worker) noteDiverging(s, t string) {
+	if len(w.divergeEx) < 3 {
+		w.divergeEx = append(w.divergeEx, [2]string{s, t})
 	}
 }
 
@@ -318,6 +426,8 @@ func (w *worker) cmpJoin(o *osCtx, fn int, x args3, want, got string, p any) {
 }
 
 func (w *worker) triple(o *osCtx, s, t, u string) {
+	w.begin(o, "triple", s, t, u)
+
 	x := args3{a: [3]string{s, t, u}, n: 3}
 
 	var p any
@@ -334,6 +444,8 @@ func (w *worker) join0(o *osCtx) {
 }
 
 func (w *worker) matchCheck(o *osCtx, pattern, name string) {
+	w.begin(o, "match", pattern, name, "")
+
 	wm, werr := o.ref.match(pattern, name)
 	gm, gerr, p := s2be(o.sut.match, pattern, name)
 
